@@ -252,7 +252,6 @@ func c12(c *core.Ctx) {
 	// name used for a stream fails with a status error without running any handler"): the codec tables of C11/R3
 	c.Borrow("C11", map[string]string{"R3": "R6"}, c11)
 
-
 	// ---------------------------------------------------------------- R7 (shared)
 	// the name that reaches the transport is the one the caller (or an interceptor handing the call on) gave:
 	// the client interceptor plumbing forwards its own parameters (C17/R2)
